@@ -212,3 +212,91 @@ func retResult(n *GNode, i int) ast.Expr {
 	}
 	return n.Ret.Results[i]
 }
+
+// localDefs maps every local variable of f (not descending into literals) to the expressions
+// assigned to it (:=, =, var x = e).
+func localDefs(f *Func) map[types.Object][]ast.Expr {
+	info := f.Pkg.TypesInfo
+	defs := map[types.Object][]ast.Expr{}
+	ast.Inspect(f.Body, func(n ast.Node) bool {
+		switch x := n.(type) {
+		case *ast.FuncLit:
+			return false
+		case *ast.AssignStmt:
+			if len(x.Lhs) == len(x.Rhs) {
+				for i, l := range x.Lhs {
+					if id, ok := ast.Unparen(l).(*ast.Ident); ok {
+						o := info.Defs[id]
+						if o == nil {
+							o = info.Uses[id]
+						}
+						if o != nil {
+							defs[o] = append(defs[o], x.Rhs[i])
+						}
+					}
+				}
+			} else if len(x.Rhs) == 1 {
+				for _, l := range x.Lhs {
+					if id, ok := ast.Unparen(l).(*ast.Ident); ok {
+						o := info.Defs[id]
+						if o == nil {
+							o = info.Uses[id]
+						}
+						if o != nil {
+							defs[o] = append(defs[o], x.Rhs[0])
+						}
+					}
+				}
+			}
+		case *ast.ValueSpec:
+			for i, nm := range x.Names {
+				if o := info.Defs[nm]; o != nil && i < len(x.Values) {
+					defs[o] = append(defs[o], x.Values[i])
+				}
+			}
+		}
+		return true
+	})
+	return defs
+}
+
+// mentionsDeep: e mentions the object (or a call to one of the keys when obj is nil) directly or
+// through local variables, following ALL definitions of each variable (any definition counts).
+func (w *World) mentionsDeep(f *Func, defs map[types.Object][]ast.Expr, e ast.Node, obj types.Object, callKeys ...string) bool {
+	info := f.Pkg.TypesInfo
+	seen := map[types.Object]bool{}
+	var rec func(e ast.Node) bool
+	rec = func(e ast.Node) bool {
+		if obj != nil && mentionsObj(info, e, obj) {
+			return true
+		}
+		if len(callKeys) > 0 && w.mentionsCall(f, e, callKeys...) {
+			return true
+		}
+		hit := false
+		ast.Inspect(e, func(n ast.Node) bool {
+			if hit {
+				return false
+			}
+			if _, ok := n.(*ast.FuncLit); ok {
+				return false
+			}
+			if id, ok := n.(*ast.Ident); ok {
+				o := info.Uses[id]
+				if o != nil && !seen[o] {
+					if ds, ok := defs[o]; ok {
+						seen[o] = true
+						for _, d := range ds {
+							if rec(d) {
+								hit = true
+							}
+						}
+					}
+				}
+			}
+			return true
+		})
+		return hit
+	}
+	return rec(e)
+}
